@@ -8,7 +8,7 @@ cp -r /repo/ml_pipeline_engine /repo/ml_pipeline_viewer /repo/tests /repo/pyproj
 if ! (cd "$scratch" && patch -p1 -s --no-backup-if-mismatch < "$patch" >/dev/null 2>&1); then echo "PATCH-FAILED $patch"; rm -rf "$scratch"; exit 2; fi
 if [ -n "$TESTS" ]; then (cd "$scratch" && /venv/bin/python -m pytest -q -p no:cacheprovider --timeout=900 -x -q --deselect tests/visualization 2>&1 | tail -1); fi
 for p in "$@"; do
-  out=$(cd /verif && MPE_REPO="$scratch" PYTHONHASHSEED=0 PYTHONPATH=/verif:"$scratch" /venv/bin/python -m mc.check $p --tier ${TIER:-quick} --no-evidence 2>&1)
+  out=$(cd /verif && VERIF_SUITE=$VERIF_SUITE MPE_REPO="$scratch" PYTHONHASHSEED=0 PYTHONPATH=/verif:"$scratch" /venv/bin/python -m mc.check $p --tier ${TIER:-quick} --no-evidence 2>&1)
   rc=$?
   n=$(echo "$out" | grep -c "^VIOLATION")
   first=$(echo "$out" | grep -m1 "symptom=" | cut -c1-200)
